@@ -17,7 +17,10 @@ rm -f zz_demo_test.go
 if ! git apply "$D/patch.diff"; then echo "PATCH DOES NOT APPLY"; exit 2; fi
 if go build ./... && go test -count=1 ./... >/tmp/tm_suite.log 2>&1; then echo "suite with mutant: PASS (ok)"; else echo "suite with mutant: FAIL (mutant rejected)"; tail -5 /tmp/tm_suite.log; fi
 cp "$D/demo_test.go" zz_demo_test.go
-if go test $TAGS -count=1 -timeout 120s -run . . >/tmp/tm_demo_mut.log 2>&1; then echo "demo with mutant: PASS (mutant not demonstrated)"; else echo "demo with mutant: FAIL (ok)"; fi
+if go test $TAGS -count=1 -timeout 120s -run . . >/tmp/tm_demo_mut.log 2>&1; then
+  # some concurrency demonstrations only fail under the race detector
+  if go test $TAGS -race -count=1 -timeout 300s -run . . >/tmp/tm_demo_mut.log 2>&1; then echo "demo with mutant: PASS (mutant not demonstrated)"; else echo "demo with mutant: FAIL under -race (ok)"; fi
+else echo "demo with mutant: FAIL (ok)"; fi
 rm -f zz_demo_test.go
 cd /verif
 for id in "$@"; do
